@@ -160,6 +160,34 @@ def _gen_build(rng, spin_mode, slot):
     return {"op": "build", "slot": slot, "terms": terms, "targets": targets}
 
 
+def _gen_wide_build(rng, spin_mode, slot):
+    """a product with many indices of one space (more than the 7 / 8 base letters), so that
+    the lowest available names run into the numbered generations i1, j1, ..."""
+    space = rng.choice(["occ", "virt", "general"])
+    letters = LETTERS[space]
+    n = rng.choice([6, 8, 9, 10, 12])
+    spin = _pick_spin(rng, spin_mode)
+    cand = list(letters) + [ch + "1" for ch in letters] + [ch + "2" for ch in letters[:3]] + \
+        [rng.choice(letters) + str(rng.choice([3, 4, 7, 10, 11])) for _ in range(4)]
+    toks = []
+    for nm in rng.sample(cand, min(n, len(cand))):
+        tok = f"{nm}:{spin}" if spin else nm
+        if tok not in toks:
+            toks.append(tok)
+    cand_t = [t for t in toks if _suffix(t) < 3]
+    targets = rng.sample(cand_t, min(rng.choice([0, 1, 2, 3, 5]), len(cand_t)))
+    atoms = []
+    order = toks[:]
+    rng.shuffle(order)
+    for a, b in zip(order, order[1:] + order[:1]):
+        atoms.append(["nst", rng.choice(["w", "w", "u"]), [a, b]])
+    if rng.random() < 0.5 and len(toks) >= 4:
+        q = rng.sample(toks, 4)
+        atoms.append(["ast", "V", q[:2], q[2:], 0])
+    return {"op": "build", "slot": slot, "targets": targets,
+            "terms": [{"pref": [rng.choice([1, -1, 2]), rng.choice([1, 3])], "atoms": atoms}]}
+
+
 def _suffix(tok):
     name = tok.split(":")[0]
     return int(name[1:]) if name[1:] else 0
@@ -215,7 +243,10 @@ def generate(seed, run, tier="quick", overrides=None):
         k = rng.choice(kinds)
         st = None
         if k == "build":
-            st = _gen_build(rng, spin_mode, rng.randrange(n_slots))
+            if rng.random() < 0.15:
+                st = _gen_wide_build(rng, spin_mode, rng.randrange(n_slots))
+            else:
+                st = _gen_build(rng, spin_mode, rng.randrange(n_slots))
         elif k == "reg.get":
             names, spins = [], []
             for _ in range(rng.choice([1, 1, 2, 3, 4, 6])):
@@ -366,6 +397,15 @@ class C08Session:
     def fp(self, expr, targets):
         """value fingerprint or None"""
         from .tensor_model import fingerprint, NotEvaluable
+        leaves = 1
+        for s in expr.atoms(self.Index):
+            sp, spin = self.key_of(s)
+            w = 2 if spin else {"occ": self.params["n_occ"], "virt": self.params["n_virt"],
+                                "general": self.params["n_occ"] + self.params["n_virt"]}[sp]
+            leaves *= (2 * w if (spin and sp == "general") else w)
+        if leaves > 300000:
+            self.probes["value_too_wide"] = self.probes.get("value_too_wide", 0) + 1
+            return None
         try:
             h, _ = fingerprint(expr, targets, model_seeds=(self.params["model_seed"],),
                                n_occ=self.params["n_occ"], n_virt=self.params["n_virt"],
@@ -528,9 +568,10 @@ class C08Session:
             else:
                 self.probes["anf_checked"] = self.probes.get("anf_checked", 0) + 1
                 if n1 != n2:
-                    self.selfcheck.append(f"alpha-normal forms differ although the values "
-                                          f"agree ({what}): {sl['expr']} -> {after} targets "
-                                          f"{sl['targets']}")
+                    self.viol("rename", "c-structure", f"{what}: the result is not equal to "
+                              f"the input modulo renaming of contracted indices (alpha-normal "
+                              f"forms differ; the values happen to agree in the small model): "
+                              f"{sl['expr']} -> {after} targets {sl['targets']}")
         if a is not None and a != b:
             self.viol("rename", "c-value", f"{what}: value changed (fingerprint {b} -> {a}); "
                       f"before {sl['expr']} after {after} targets {sl['targets']}")
